@@ -16,7 +16,7 @@
 From Avfs Require Import Base PathModel PathSpec PathProofs PathCleanProofs PathIterProofs.
 From Coq Require Import Permutation.
 From Avfs Require Import MemFS MemFile World Posix Inv WalkBridge WalkSym WalkBudget WalkReadlink WalkRel StepEq WalkInv StepInv
-  HeapEq HeapEqSnap StepRename StepRenameDir StepHist StepCwd StepMkdirAll StepHistM StepRemoveAll StepRemoveAllEx StepOpen StepHistO.
+  HeapEq HeapEqSnap StepRename StepRenameDir StepHist StepCwd StepMkdirAll StepHistM StepRemoveAll StepRemoveAllEx StepOpen StepHistO StepNamePath.
 
 Theorem C01_step_stat : forall (s : fsys) (sv : sview) (cs : list str),
   step_hyps s sv -> path_ok s sv SlStat cs ->
@@ -489,3 +489,77 @@ Example C01_history_inv_o_example :
   /\ snd (spec_run StepExamples.sw_tree StepHistOExamples.ho)
      = [SOk; SOk; SErr EISDIR; SOk; SErr EEXIST; SErr EEXIST; SOk; SOk].
 Proof. split; [exact StepHistOExamples.ho_inv|exact StepHistOExamples.ho_results]. Qed.
+
+(* ---- the entry-creating calls on relative paths ----------------------------------------------------------------------------------------- *)
+(* [name_path p cl]: open(2)'s splitting of the string [p] ends in the proper name [cl], no trailing separator: the clean
+   absolute paths "/w/cl" ([name_path_abs]) and the paths that clean to "../"^k w/cl ([C01_rel_name_resolved], which also
+   gives [resolved] - the related walks of C04_resolve_rel - from a working-directory string that is a directory walk to
+   the specification's working-directory node).  The creating calls agree on every resolved name path. *)
+Theorem C01_rel_name_resolved : forall (s : fsys) (sv : sview) (bs : list str) (x : str) (k : nat) (w : list str) (cl : str),
+  step_hyps s sv ->
+  v_cwd (sv_view sv) = abs_path bs -> Forall good_comp bs ->
+  dwalk (f_heap s) (v_user (sv_view sv)) (v_root (sv_view sv)) bs = Some (sv_cwd sv) ->
+  clean Linux x = rel_path k (w ++ [cl]) -> Forall good_comp (w ++ [cl]) ->
+  name_path (clean Linux x) cl
+  /\ forall slm, klookup s sv false (follow_of slm) (clean Linux x) <> WErr EFUEL ->
+                 sr_err (search_node s (sv_view sv) (clean Linux x) slm) <> EFuel ->
+                 resolved s sv slm (clean Linux x).
+Proof. exact rel_name_resolved. Qed.
+
+Theorem C01_step_mkdir_p : forall (s : fsys) (sv : sview) (p cl : str), step_hyps s sv -> name_path p cl -> forall perm : N,
+  resolved s sv SlLstat p -> no_setgid_p s sv false p ->
+  (fst (mkdir s (sv_view sv) p perm), proj_res Linux (snd (mkdir s (sv_view sv) p perm))) = k_mkdir s sv p perm.
+Proof. exact step_mkdir_p. Qed.
+
+Theorem C01_step_symlink_p : forall (s : fsys) (sv : sview) (p cl : str), step_hyps s sv -> name_path p cl -> forall t : str,
+  resolved s sv SlLstat p -> no_setgid_p s sv false p ->
+  (fst (symlink s (sv_view sv) t p), proj_res Linux (snd (symlink s (sv_view sv) t p))) = k_symlink s sv (clean Linux t) p.
+Proof. exact step_symlink_p. Qed.
+
+Theorem C01_step_link_p : forall (s : fsys) (sv : sview) (p cl : str), step_hyps s sv -> name_path p cl -> forall o : str,
+  resolved s sv SlLstat o -> resolved s sv SlLstat p -> not_symlink_p s sv o ->
+  (fst (link s (sv_view sv) o p), proj_res Linux (snd (link s (sv_view sv) o p))) = k_link true s sv o p.
+Proof. exact step_link_p. Qed.
+
+Theorem C01_step_write_file_p : forall (s : fsys) (sv : sview) (p cl : str) (data : list N) (perm : N),
+  step_hyps s sv -> name_path p cl ->
+  resolved s sv SlLstat p -> resolved s sv SlEval p -> no_setgid_p s sv true p ->
+  (fst (write_file s (sv_view sv) p data perm), proj_res Linux (snd (write_file s (sv_view sv) p data perm)))
+  = go_write_file s sv p data perm.
+Proof. exact step_write_file_p. Qed.
+
+Theorem C01_step_open_create_p : forall (s : fsys) (sv : sview) (vi : nat) (p cl : str) (flag perm : N),
+  step_hyps s sv -> name_path p cl ->
+  resolved s sv SlLstat p -> resolved s sv SlEval p -> no_setgid_p s sv true p ->
+  has flag O_CREATE = true -> has flag O_EXCL = false ->
+  open_sim (open_file s (sv_view sv) vi p flag perm) (k_open s sv p flag perm).
+Proof. exact step_open_create_p. Qed.
+
+Theorem C01_step_open_excl_p : forall (s : fsys) (sv : sview) (vi : nat) (p cl : str) (flag perm : N),
+  step_hyps s sv -> name_path p cl ->
+  resolved s sv SlLstat p -> no_setgid_p s sv false p ->
+  has flag O_CREATE = true -> has flag O_EXCL = true ->
+  open_sim (open_file s (sv_view sv) vi p flag perm) (k_open s sv p flag perm).
+Proof. exact step_open_excl_p. Qed.
+
+Theorem C01_step_open_nocreate_p : forall (s : fsys) (sv : sview) (vi : nat) (p : str) (flag perm : N),
+  step_hyps s sv -> p <> [] -> resolved s sv SlEval p -> has flag O_CREATE = false ->
+  open_sim (open_file s (sv_view sv) vi p flag perm) (k_open s sv p flag perm).
+Proof. exact step_open_nocreate_p. Qed.
+
+(* Mkdir "../x" and WriteFile "x" from the working directory "/d/e"; O_CREATE|O_EXCL of the relative link "top" *)
+Example C01_rel_create_examples :
+  ((fst (mkdir WalkSymExamples.tree_fs StepNamePathExamples.acwdv (clean Linux StepNamePathExamples.up_x) 493),
+    proj_res Linux (snd (mkdir WalkSymExamples.tree_fs StepNamePathExamples.acwdv (clean Linux StepNamePathExamples.up_x) 493)))
+   = k_mkdir WalkSymExamples.tree_fs StepNamePathExamples.acwdsv (clean Linux StepNamePathExamples.up_x) 493
+   /\ snd (k_mkdir WalkSymExamples.tree_fs StepNamePathExamples.acwdsv (clean Linux StepNamePathExamples.up_x) 493) = SOk
+   /\ klookup (fst (k_mkdir WalkSymExamples.tree_fs StepNamePathExamples.acwdsv (clean Linux StepNamePathExamples.up_x) 493))
+        (WalkSymExamples.sv_of WalkSymExamples.adminv) false false (abs_path [WalkSymExamples.s_d; WalkSymExamples.s_x])
+      = WNode 1 LNorm WalkSymExamples.s_x (length WalkSymExamples.tree))
+  /\ snd (go_write_file WalkSymExamples.tree_fs StepNamePathExamples.acwdsv (clean Linux WalkSymExamples.s_x) [1%N; 2%N] 420) = SOk
+  /\ snd (k_open WalkSymExamples.tree_fs StepNamePathExamples.acwdsv (clean Linux WalkSymExamples.s_top)
+            (O_CREATE + O_EXCL + O_RDWR) 420) = inl EEXIST.
+Proof.
+  split; [exact StepNamePathExamples.mkdir_rel_instance|].
+  split; [exact (proj2 StepNamePathExamples.write_file_rel_instance)|exact (proj2 StepNamePathExamples.open_excl_rel_instance)].
+Qed.
